@@ -4,7 +4,8 @@
    transport_ok = stream or packet.  Padding draws are oracle inputs constrained only by the
    maxima the code computes (draws_ok). *)
 From Coq Require Import ZArith List.
-From M Require Import gen.Consts model.Sizes proofs.SizesProofs.
+From M Require Import gen.Consts model.Sizes proofs.SizesProofs proofs.SizesCrossProofs.
+From M Require model.TcpStream model.Wire model.UdpProto.
 Import ListNotations.
 Open Scope Z_scope.
 
@@ -111,3 +112,50 @@ Theorem C14_consts_modes :
   C14_StreamPaddingCap <= C14_MaxUint8 /\ C14_PacketPaddingCap <= C14_MaxUint8.
 Proof. exact consts_modes. Qed.
 Print Assumptions C14_consts_modes.
+
+(* ---- ties to the neighbouring models (proofs/SizesCrossProofs.v) ---- *)
+
+(* C01: on the stream transport the plan of Sizes.v and TcpStream.plan_event (one Write from any writer state)
+   queue the same segments in the same order — protocol number, fragment number, payload bytes — for client and
+   server, first and later writes, every mode OFF/32/40/48/56 and every byte string (also the empty one) *)
+Theorem C14_plan_agrees_with_tcpstream : forall (client : bool) (st : TcpStream.wst) (modeN : N) (b : list N) mtu,
+  (modeN <= 4)%N ->
+  map (proj14 client)
+      (fst (fst (plan_write client (negb (TcpStream.w_opened st)) mtu C14_TransportStream (Z.of_N modeN) b))) =
+  map proj01 (fst (TcpStream.plan_event client st (TcpStream.WWrite modeN b))).
+Proof. exact plan_agrees_with_tcpstream. Qed.
+Print Assumptions C14_plan_agrees_with_tcpstream.
+
+(* C09: dgram_len is the length of Wire.udp_datagram (the layout of C09_udp_datagram_length) for every segment
+   kind, when the paddings and the wire payload have the lengths the segment says *)
+Theorem C14_dgram_len_agrees_with_wire : forall (seal : list N -> list N -> list N -> list N),
+  (forall k n p, length (seal k n p) = (length p + N.to_nat Wire.TagOverhead)%nat) ->
+  forall key nonce meta pad1 payload pad2 (s : seg) p1 p2,
+  N.of_nat (length nonce) = Wire.NonceSize -> N.of_nat (length meta) = Wire.MetadataLength ->
+  Z.of_nat (length pad1) = (if is_session (s_kind s) then 0 else p1) ->
+  Z.of_nat (length pad2) = p2 ->
+  Z.of_nat (length payload) =
+    (if s_body s >? 0 then match s_kind s with KDataLE => s_plen s | _ => s_body s end else 0) ->
+  (s_kind s = KDataLE -> 0 < s_body s -> 0 < s_plen s) ->
+  Z.of_nat (length (Wire.udp_datagram seal key nonce meta pad1 payload pad2 (fun x => x))) = dgram_len s p1 p2.
+Proof. exact dgram_len_agrees_with_wire. Qed.
+Print Assumptions C14_dgram_len_agrees_with_wire.
+
+(* C02/C13: whatever endpoint X (false = client, true = server) of UdpProto may emit is within the MTU:
+   (a) every content a Write hands to the sender is a sequenced type of X, carries s_body bytes and every
+       datagram made of it (first transmission or retransmission, any padding draw within the maxima) is <= mtu;
+   (b) every sequenced or ack type of X is one of the seven kinds of Sizes.v, and the payload-free segment of every
+       non-data kind (open/close request/response, pure ack) is <= mtu *)
+Theorem C14_every_segment_kind_within_mtu : forall mtu mode (X first : bool) (b : list N) cfg_mid cfg_end,
+  mtu_ok mtu -> mode_ok mode ->
+  (forall s p, In (s, p) (fst (fst (plan_write (negb X) first mtu C14_TransportPacket mode b))) ->
+     let c := UdpProto.mkC (Z.to_N (proto_of (negb X) (s_kind s))) (Z.to_N (s_frag s)) p in
+     UdpProto.is_seq X (UdpProto.c_ty c) = true /\ Z.of_nat (length (UdpProto.c_pay c)) = s_body s /\
+     forall p1 p2, draws_ok mtu C14_TransportPacket cfg_mid cfg_end s p1 p2 -> dgram_len s p1 p2 <= mtu) /\
+  (forall ty, UdpProto.is_seq X ty = true \/ UdpProto.is_ack X ty = true ->
+     exists k, ty = Z.to_N (proto_of (negb X) k) /\
+       (k <> KData -> k <> KDataLE ->
+        forall p1 p2, draws_ok mtu C14_TransportPacket cfg_mid cfg_end (control_seg k) p1 p2 ->
+                      dgram_len (control_seg k) p1 p2 <= mtu)).
+Proof. exact every_segment_kind_within_mtu. Qed.
+Print Assumptions C14_every_segment_kind_within_mtu.
